@@ -168,13 +168,7 @@ Print Assumptions C12_newer_iff.
 
 Theorem C12_soon_iff : forall w now t d s,
   ov w = One now -> tz now = None -> resolves w t d -> normalizable d = true ->
-  t = TDt d -> in_range (wall now + s) = true ->
+  in_range (wall now + s) = true ->
   exists b, gen_is_soon t s w = (Ok b, w) /\ (b = true <-> instant d <= wall now + s).
 Proof. exact gen_soon_iff. Qed.
 Print Assumptions C12_soon_iff.
-
-(* the same clause for string arguments is false: is_soon never parses (known finding soon-str) *)
-Definition C12_soon_full_statement : Prop := gen_soon_full_statement.
-Theorem C12_soon_str_refuted : ~ C12_soon_full_statement.
-Proof. exact gen_soon_str_refuted. Qed.
-Print Assumptions C12_soon_str_refuted.
